@@ -13,6 +13,10 @@ CLAIMED = {
    text="StableAbs.tla (stable indices, any non-live index may be handed out, Err leaves everything unchanged, counts/bounds/iterators describe the same element set) is model-checked by TLC for Ix3; the real StableGraph is driven in debug AND release profiles with seeded random histories, vacancy-stress scenarios that refill to the index limit after reverse/clear_edges/map/filter_map/retain/clone/conversion, and u8 limit histories; TLC validates every recorded trace against StableAbs (MGTrace.tla) including full observations.",
    note="Trusted: TLC + Json module, harness recorder. Exhaustive only for MaxIx=3,W={1}. Which vacancy is reused is deliberately unspecified (logged index resolves it). Three genuine defects were found and fixed (KNOWN_FINDINGS.json).",
    design="4/C02", technique="TLA+ spec + TLC model checking + trace validation of real executions"),
+ "C07": dict(
+   text="Cross-product driver: every algorithm covered by the oracles of C09, C10, C11, C12, C15, C16 and C20 is run on every encoding (Graph, StableGraph, MatrixGraph, GraphMap, Csr, adj::List) x history (fresh, shuffled, garbage-then-remove leaving vacant indices / swap renumbering) of the same abstract graph, with its own seeds; every run is judged by that algorithm's TLA+ oracle (equal where unique, equally valid and optimal where not), and a panic, hang or out-of-bounds on one encoding is a rejection. The algorithm x encoding applicability matrix is written to the evidence.",
+   note="Trusted: the oracles of the individual properties. VF2 (Graph only by its bounds) and the walkers are covered in C13 / C08. Several sizing defects (node_count vs node_bound) were found this way and fixed; page_rank on index spaces with holes is a recorded finding.",
+   design="4/C07", technique="TLA+ oracle specs evaluated by TLC on recorded (input, encoding, output) triples"),
  "C09": dict(
    text="Every C09 algorithm (kosaraju_scc, tarjan_scc, TarjanScc::run + node_component_index, connected_components, has_path_connecting with fresh and reused DfsSpace, is_cyclic_directed/undirected, is_bipartite_undirected, toposort fresh/reused, condensation with and without make_acyclic) is run on every encoding (Graph, StableGraph, MatrixGraph, GraphMap, Csr, adj::List) x history (fresh, shuffled, garbage-then-remove) of exhaustive small graphs and seeded random/adversarial shapes; each recorded output is judged by TLC against definitions in GraphTheory.tla/OracleC09.tla (reachability closure, mutual-reachability classes, forest edge count, 2-colourability by exhaustive colouring).",
    note="Trusted: TLC, GraphTheory.tla definitions, harness id mapping. Inputs bounded (exhaustive n<=3, random n<=6/7, binomial union orders to 16 nodes): exploration beyond. One genuine defect (Csr undirected edge_references) found and fixed.",
@@ -29,10 +33,22 @@ CLAIMED = {
    text="min_spanning_tree element streams (Graph, StableGraph with vacancies, Csr; i64 and f64 weights with ties) and min_spanning_tree_prim (undirected) judged by TLC against OracleC12.tla: all nodes first in graph order, edges are edges of g (multiset inclusion), acyclic, spanning, |V|-c of them, total weight = minimum over ALL spanning forests (enumerated as k-subsets of the edge set).",
    note="Trusted: TLC, GraphTheory.tla. Brute-force minimality bounds inputs to <= ~12 edges; binomial union orders up to 16 nodes included for the UnionFind path.",
    design="4/C12", technique="TLA+ oracle spec evaluated by TLC on recorded (input, output) pairs"),
+ "C13": dict(
+   text="is_isomorphic, is_isomorphic_matching, is_isomorphic_subgraph, is_isomorphic_subgraph_matching and subgraph_isomorphisms_iter (with and without weight predicates) on pairs of simple (di)graphs with loops (relabelled copies, near misses, induced subgraphs, independent pairs; three build histories each) judged by TLC against OracleC13.tla, which enumerates ALL injective node maps: existence, the exact SET of mappings yielded, each once; non-termination (more than 600 yielded mappings) is a rejection.",
+   note="Trusted: TLC, OracleC13.tla. Pairs bounded to <= 4 nodes per graph, weights in {0,1}, predicates = equality. One defect found and fixed (empty pattern looped forever).",
+   design="4/C13", technique="TLA+ oracle spec evaluated by TLC on recorded (input, output) pairs"),
+ "C15": dict(
+   text="greedy_matching and maximum_matching (all accessors) on every encoding, ford_fulkerson (u32 and f64 capacities, parallel/antiparallel edges) on Graph and StableGraph with vacancies; judged by TLC against OracleC15.tla: valid matching with consistent accessors, size = maximum over ALL matchings (subset enumeration), flow feasibility, conservation, value = net out of s = minimum over all s-t cuts.",
+   note="Trusted: TLC, OracleC15.tla. Inputs bounded to <= 10 edges. Recorded finding: maximum_matching on directed graph types is not maximum (documented as 'treated as undirected'; a repair changes trait bounds). ford_fulkerson sizing defect fixed.",
+   design="4/C15", technique="TLA+ oracle spec evaluated by TLC on recorded (input, output) pairs"),
  "C16": dict(
    text="dominators::simple_fast from every root (dominators, strict_dominators, immediate_dominator, immediately_dominated_by) on every encoding of directed graphs, and articulation_points on every encoding of undirected multigraphs with loops, judged by TLC against OracleC16.tla: A dom B iff B is unreachable from the root once A is deleted; cut vertex iff deletion increases the component count.",
    note="Trusted: TLC, GraphTheory.tla. Inputs bounded (exhaustive n<=3, random n<=6/7). One defect found and fixed (articulation_points sizing).",
    design="4/C16", technique="TLA+ oracle spec evaluated by TLC on recorded (input, output) pairs"),
+ "C20": dict(
+   text="maximal_cliques (exact set, each once), dsatur_coloring (proper, colours 0..k-1, k<=2 on bipartite), greedy_feedback_arc_set (rest acyclic), dag_to_toposorted_adjacency_list + dag_transitive_reduction_closure (exact reduction and closure by reachability), all_simple_paths (exact set within bounds, each once on simple graphs), steiner_tree (tree inside the graph, terminals, leaves, weight <= 2 OPT with OPT by brute force), page_rank (non-negative, sums to 1, identical per abstract node across encodings/numberings) judged by TLC against OracleC20.tla.",
+   note="Trusted: TLC, OracleC20.tla. Inputs bounded (n<=5/6). PageRank compared at 1e-6 scale with tolerance; convergence not decided. Recorded finding: page_rank on index spaces with holes. Fixed: dsatur empty graph, StableGraph is_adjacent (found through maximal_cliques).",
+   design="4/C20", technique="TLA+ oracle spec evaluated by TLC on recorded (input, output) pairs"),
  "C19": dict(
    text="TLC exhaustively model-checks UnionFindAbs (equivalence = connectivity generated by the unions; MaxN<=4/5) and UnionFindImpl (parent/rank forest invariants, refinement to Abs); a TLC-generated transition cover of UnionFindImpl plus exhaustive and seeded random histories (all index widths, u8 to 256 elements, out-of-range arguments, panicking variants) are executed on the real UnionFind and every recorded trace is validated by TLC against UnionFindAbs.",
    note="Trusted: TLC + CommunityModules Json, the harness recorder. Exhaustive within MaxN only; beyond, exploration of recorded histories. Memory safety of get_unchecked not decided (only the index arithmetic guarding it).",
